@@ -1016,6 +1016,14 @@ class Interp:
         out = []
         for (s, itv) in self.ev(frame, it_expr, st):
             itv = self.load_ref(s, itv)
+            # `for x in v` over (a reference to) an array, slice or Vec is `for x in v.iter()`
+            if self.iter_info(itv)[0] is None and "ty" in it_expr:
+                at = strip_refs(self.ty(frame, it_expr["ty"]))
+                n = None
+                if at[0] == "array":
+                    n = C(at[2]) if isinstance(at[2], int) else ("cparam", at[2][1]) if isinstance(at[2], tuple) else None
+                if at[0] in ("array", "slice") or (at[0] == "adt" and at[1] == "alloc::vec::Vec"):
+                    itv = ("iterof", itv, n if n is not None else self.length_of(itv))
             if inner is None:
                 self.notes.append(("for-shape", frame.crate.span(e["sp"])))
                 s.events.append(("UnknownLoop", frame.crate.span(e["sp"])))
@@ -1073,6 +1081,11 @@ class Interp:
     def run_loop(self, frame, s, itv, pat, body, e):
         s.nloops += 1
         lid = s.nloops
+        # `it.enumerate()` yields every item of `it`, paired with its index
+        enumerated = False
+        if isinstance(itv, tuple) and itv and itv[0] == "call" and itv[1] == "enumerate" and len(itv[2]) == 1:
+            enumerated = True
+            itv = itv[2][0]
         cnt, elem = self.iter_info(itv)
         if cnt is None:
             cnt = ("itercount", lid, itv)
@@ -1082,6 +1095,8 @@ class Interp:
             base = elem[1]
             n = self.length_of(base) if elem[0] == "elem" else None
             elemv = ("elem", base, lid)
+        if enumerated:
+            elemv = ("tuple", (("loopidx", lid), elemv))
         outer_events = s.events
         s.events = []
         if pat is not None:
@@ -1110,6 +1125,9 @@ class Interp:
             # counting idiom: v = v + 1 once per iteration
             if new == self.binop("Add", old, C(1)) or new == ("bin", "Add", old, C(1)):
                 after.envs[fuid][var] = self.binop("Add", old, cnt)
+            elif old == C(0) and new in (self.binop("Add", ("loopidx", lid), C(1)), ("bin", "Add", ("loopidx", lid), C(1)), ("bin", "Add", C(1), ("loopidx", lid))):
+                # `count = index + 1` in every iteration, 0 before the loop: the number of iterations
+                after.envs[fuid][var] = cnt
             elif isinstance(new, tuple) and new and new[0] == "vec" and isinstance(old, tuple) and old and old[0] == "vec":
                 # Vec built by push in the loop
                 after.envs[fuid][var] = ("vec", new[1], self.binop("Add", old[2], cnt), ("loop", lid, new[3]))
@@ -1622,6 +1640,14 @@ class Interp:
                      "leading_zeros": 64 - v.bit_length(), "count_ones": bin(v).count("1")}[name]
                 return [(s, C(r))]
             return [(s, ("call", name, (a,), None))]
+        if krate == "core" and name in ("try_from", "try_into") and len(args) == 1 and targs:
+            a = self.load_ref(s, args[0])
+            tgt = targs[0] if name == "try_from" else (targs[1] if len(targs) > 1 else None)
+            BITS = {"u8": 8, "u16": 16, "u32": 32, "u64": 64, "usize": 64, "u128": 128}
+            if is_c(a) and isinstance(tgt, tuple) and tgt[0] == "prim" and tgt[1] in BITS and a[1] >= 0:
+                if a[1] < (1 << BITS[tgt[1]]):
+                    return [(s, ("adt", "core::result::Result", 0, ((0, a),)))]
+                return [(s, ("adt", "core::result::Result", 1, ((0, ("opaque", "TryFromIntError")),)))]
         if krate == "core" and name in ("checked_sub", "checked_add") and len(args) == 2:
             a, b = self.load_ref(s, args[0]), self.load_ref(s, args[1])
             OPT = "core::option::Option"
